@@ -91,10 +91,12 @@ class Word:
 
 
 class BitEval:
-    def __init__(self, env: Dict[str, Word], const_lookup=None, opaque_width: int = 8):
+    def __init__(self, env: Dict[str, Word], const_lookup=None, opaque_width: int = 8, func: Optional[Func] = None):
         self.env = env
         self.const_lookup = const_lookup
         self.opaque_width = opaque_width
+        self.func = func
+        self._busy = set()
 
     def ev(self, e: ast.AST) -> Word:
         if isinstance(e, ast.Constant) and isinstance(e.value, int):
@@ -121,6 +123,14 @@ class BitEval:
             return self.ev(e.func.value)
         if isinstance(e, ast.Call) and dotted(e.func) in ("int",) and e.args:
             return self.ev(e.args[0])
+        if isinstance(e, ast.Name) and self.func is not None and e.id not in self._busy:
+            vals = q.assigned_values(self.func, e.id)
+            if len(vals) == 1:
+                self._busy.add(e.id)
+                try:
+                    return self.ev(vals[0])
+                finally:
+                    self._busy.discard(e.id)
         if self.const_lookup is not None:
             try:
                 v = self.const_lookup(e)
